@@ -130,7 +130,14 @@ func (g *c13Gen) groupBy() {
 }
 
 func (g *c13Gen) where() {
-	switch g.pick(8) {
+	switch g.pick(10) {
+	case 8:
+		// the parser binds arithmetic to the regex operand: the right side of =~ is not a regex literal
+		g.raw(" WHERE t =~ /re/ + ")
+		g.digit()
+		g.raw(" AND v !~ /re/ * 2")
+	case 9:
+		g.raw(" WHERE /re/ =~ t OR /a/ = /b/ OR t =~ /^x$/")
 	case 0:
 		return
 	case 1:
@@ -164,6 +171,22 @@ func (g *c13Gen) where() {
 		g.digit()
 		g.raw("s = 1")
 	}
+}
+
+// a schema that reports "no tags" / "no fields" as nil maps
+type c13NilMapper struct{}
+
+func (c13NilMapper) FieldDimensions(m *Measurement) (map[string]DataType, map[string]struct{}, error) {
+	if m.Name == "m" {
+		return map[string]DataType{"v": Float}, nil, nil
+	}
+	return nil, nil, nil
+}
+func (c13NilMapper) MapType(m *Measurement, field string) DataType {
+	if field == "v" {
+		return Float
+	}
+	return Unknown
 }
 
 type c13Mapper struct{}
@@ -204,6 +227,7 @@ func c13Apply(sel *SelectStatement, op int) {
 		sel.Clone().RewriteTimeFields()
 	case 6:
 		sel.RewriteFields(c13Mapper{})
+		sel.RewriteFields(c13NilMapper{})
 	case 7:
 		sel.Reduce(valuer)
 	case 8:
@@ -273,11 +297,13 @@ func vfH_C13_select(tier int) {
 		}
 		g.field()
 	}
-	switch g.pick(3) {
+	switch g.pick(4) {
 	case 0:
 		g.raw(" FROM m")
 	case 1:
 		g.raw(" INTO t FROM db.rp.m, /re/")
+	case 3:
+		g.raw(" FROM m, (SELECT max(v) FROM m GROUP BY t)")
 	default:
 		g.raw(" FROM (SELECT ")
 		g.field()
